@@ -165,6 +165,10 @@ theorem invOrntAff_apply (a0 a1 a2 : Nat) (f0 f1 f2 : Int) (h0 : a0 < 3) (h1 : a
   simp
 
 
+theorem flipIdx_inj (n : Nat) (f : Int) (x y : Nat) (hx : x < n) (hy : y < n)
+    (h : flipIdx n f x = flipIdx n f y) : x = y := by
+  unfold flipIdx at h; split at h <;> omega
+
 theorem getD_cons3 (k : Nat) (hk : k < 3) (x y z : Nat) (r : List Nat) :
     (x :: y :: z :: r).getD k 0 = [x, y, z].getD k 0 := by
   have : k = 0 ∨ k = 1 ∨ k = 2 := by omega
